@@ -168,10 +168,28 @@ func (f *SimFS) resolve(p string, followLast bool) string {
 			cur = next
 		}
 		if !changed {
-			break
+			return p
 		}
 	}
+	if len(f.links) > 0 && f.inside(p) {
+		return f.Root + eloopMarker // more than 40 links followed: every use of the path fails with ELOOP
+	}
 	return p
+}
+
+const eloopMarker = "/\x00eloop/x"
+
+// missing is the error for a path that does not exist: ENOTDIR when one of its ancestors is a regular file.
+func (f *SimFS) missing(op, name, p string) error {
+	if strings.HasSuffix(p, eloopMarker) {
+		return &fs.PathError{Op: op, Path: name, Err: syscall.ELOOP}
+	}
+	for d := filepath.Dir(p); f.inside(d) && d != f.Root; d = filepath.Dir(d) {
+		if _, isFile := f.files[d]; isFile {
+			return &fs.PathError{Op: op, Path: name, Err: syscall.ENOTDIR}
+		}
+	}
+	return &fs.PathError{Op: op, Path: name, Err: fs.ErrNotExist}
 }
 
 // locate turns a name into its absolute location with symbolic links resolved.
@@ -281,7 +299,7 @@ func FSReadFile(name string) ([]byte, error) {
 	if f.dirs[p] {
 		return nil, &fs.PathError{Op: "read", Path: name, Err: syscall.EISDIR}
 	}
-	return nil, &fs.PathError{Op: "open", Path: name, Err: fs.ErrNotExist}
+	return nil, f.missing("open", name, p)
 }
 
 func FSWriteFile(name string, data []byte, perm os.FileMode) error {
@@ -297,7 +315,7 @@ func FSWriteFile(name string, data []byte, perm os.FileMode) error {
 		return f.escape("write", p)
 	}
 	if !f.dirs[filepath.Dir(p)] {
-		return &fs.PathError{Op: "open", Path: name, Err: fs.ErrNotExist}
+		return f.missing("open", name, p)
 	}
 	if f.dirs[p] {
 		return &fs.PathError{Op: "open", Path: name, Err: syscall.EISDIR}
@@ -338,7 +356,7 @@ func FSMkdir(name string, perm os.FileMode) error {
 		return &fs.PathError{Op: "mkdir", Path: name, Err: fs.ErrExist}
 	}
 	if !f.dirs[filepath.Dir(p)] {
-		return &fs.PathError{Op: "mkdir", Path: name, Err: fs.ErrNotExist}
+		return f.missing("mkdir", name, p)
 	}
 	if ok, _, err := f.mutate("mkdir", p, 0); !ok {
 		return err
@@ -353,27 +371,37 @@ func FSMkdirAll(name string, perm os.FileMode) error {
 		return os.MkdirAll(name, perm)
 	}
 	Yield("simfs.mkdirall")
-	p := f.locate(name, true)
-	f.mu.Lock()
-	defer f.mu.Unlock()
-	if !f.inside(p) {
+	if p := f.locate(name, true); !f.inside(p) {
 		if st, err := os.Stat(p); err == nil && st.IsDir() {
 			return nil
 		}
+		f.mu.Lock()
+		defer f.mu.Unlock()
 		return f.escape("mkdir", p)
 	}
-	var missing []string
-	for d := p; f.inside(d) && !f.dirs[d]; d = filepath.Dir(d) {
-		if _, isFile := f.files[d]; isFile {
-			return &fs.PathError{Op: "mkdir", Path: d, Err: syscall.ENOTDIR}
+	return f.mkdirAll(filepath.Clean(name), perm)
+}
+
+// mkdirAll is os.MkdirAll's algorithm over the simulated primitives (so that links, files in the way and
+// faults at each created level behave as they do on a real disk).
+func (f *SimFS) mkdirAll(path string, perm os.FileMode) error {
+	if st, err := fsStat(path, true); err == nil {
+		if st.IsDir() {
+			return nil
 		}
-		missing = append(missing, d)
+		return &fs.PathError{Op: "mkdir", Path: path, Err: syscall.ENOTDIR}
 	}
-	for i := len(missing) - 1; i >= 0; i-- {
-		if ok, _, err := f.mutate("mkdir", missing[i], 0); !ok {
+	if parent := filepath.Dir(path); parent != path && f.inside(abs(parent)) && abs(parent) != f.Root {
+		if err := f.mkdirAll(parent, perm); err != nil {
 			return err
 		}
-		f.dirs[missing[i]] = true
+	}
+	err := FSMkdir(path, perm)
+	if err != nil {
+		if st, err1 := fsStat(path, false); err1 == nil && st.IsDir() {
+			return nil
+		}
+		return err
 	}
 	return nil
 }
@@ -445,7 +473,7 @@ func FSReadDir(name string) ([]os.DirEntry, error) {
 		if _, isFile := f.files[p]; isFile {
 			return nil, &fs.PathError{Op: "readdir", Path: name, Err: syscall.ENOTDIR}
 		}
-		return nil, &fs.PathError{Op: "open", Path: name, Err: fs.ErrNotExist}
+		return nil, f.missing("open", name, p)
 	}
 	var out []os.DirEntry
 	for _, c := range f.children(p) {
@@ -503,7 +531,7 @@ func FSRemove(name string) error {
 		delete(f.dirs, p)
 		return nil
 	}
-	return &fs.PathError{Op: "remove", Path: name, Err: fs.ErrNotExist}
+	return f.missing("remove", name, p)
 }
 
 func FSRemoveAll(name string) error {
@@ -516,6 +544,9 @@ func FSRemoveAll(name string) error {
 	defer f.mu.Unlock()
 	if !f.inside(p) {
 		return f.escape("removeall", p)
+	}
+	if err := f.missing("removeall", name, p); errors.Is(err, syscall.ENOTDIR) || errors.Is(err, syscall.ELOOP) {
+		return err // a regular file on the way, as the real call reports
 	}
 	if ok, _, err := f.mutate("removeall", p, 0); !ok {
 		return err
@@ -549,7 +580,21 @@ func FSRename(oldp, newp string) error {
 	if !f.inside(a) || !f.inside(b) {
 		return f.escape("rename", a+" -> "+b)
 	}
+	if !f.dirs[filepath.Dir(b)] {
+		return f.missing("rename", newp, b)
+	}
+	if f.dirs[b] {
+		return &fs.PathError{Op: "rename", Path: newp, Err: syscall.EISDIR}
+	}
+	if a == b {
+		if _, isFile := f.files[a]; isFile {
+			return nil
+		}
+	}
 	if t, isLink := f.links[a]; isLink {
+		if a == b {
+			return nil
+		}
 		if ok, _, err := f.mutate("rename", a+" -> "+b, 0); !ok {
 			return err
 		}
@@ -560,7 +605,7 @@ func FSRename(oldp, newp string) error {
 	}
 	data, ok := f.files[a]
 	if !ok {
-		return &fs.PathError{Op: "rename", Path: oldp, Err: fs.ErrNotExist}
+		return f.missing("rename", oldp, a)
 	}
 	if ok, _, err := f.mutate("rename", a+" -> "+b, len(data)); !ok {
 		return err
@@ -593,7 +638,7 @@ func FSSymlink(target, name string) error {
 		return &fs.PathError{Op: "symlink", Path: name, Err: fs.ErrExist}
 	}
 	if !f.dirs[filepath.Dir(p)] {
-		return &fs.PathError{Op: "symlink", Path: name, Err: fs.ErrNotExist}
+		return f.missing("symlink", name, p)
 	}
 	if ok, _, err := f.mutate("symlink", p, 0); !ok {
 		return err
@@ -615,6 +660,9 @@ func FSReadlink(name string) (string, error) {
 	defer f.mu.Unlock()
 	if t, ok := f.links[p]; ok {
 		return t, nil
+	}
+	if _, isFile := f.files[p]; !isFile && !f.dirs[p] {
+		return "", f.missing("readlink", name, p)
 	}
 	return "", &fs.PathError{Op: "readlink", Path: name, Err: syscall.EINVAL}
 }
@@ -660,7 +708,7 @@ func fsStat(name string, follow bool) (fs.FileInfo, error) {
 	if f.dirs[p] {
 		return simInfo{name: filepath.Base(p), dir: true}, nil
 	}
-	return nil, &fs.PathError{Op: "stat", Path: name, Err: fs.ErrNotExist}
+	return nil, f.missing("stat", name, p)
 }
 
 // Create/Open/OpenFile return *os.File, which cannot live in memory; the generator uses them only
